@@ -67,6 +67,8 @@ def make_nm(init):
     elif init.get("ro_type") == "int":
         ro = int(ro)
     args = dict(u=float(F(init["u"])), N=N, t=float(F(init["t"])), random_order=ro)
+    if init.get("int_params"):
+        args.update(u=int(F(init["u"])), t=int(F(init["t"])))          # whole numbers as Python ints
     if init.get("test") is not None:
         args["test"] = getattr(NM, init["test"])
     # `omit`: constructor arguments LEFT OUT of the call because their value is the documented default
@@ -1105,17 +1107,34 @@ def gen_reassigned(rng, tier):
     return None
 
 
-def rescaled(rng, tier):
+def gen_int_params(rng, tier):
+    """the problem in units in which u and t are whole numbers, handed over as Python ints (`NonnegMean(u=8, t=4, ...)`:
+    points on a 0..8 scale) -- equal to the floats, but an array built from them with np.full / full_like / zeros_like
+    has an integer dtype and truncates what is stored into it (round 9)"""
+    for _ in range(8):
+        c = rescaled(rng, tier, scales=[F(2), F(4), F(8), F(8), F(10), F(16)], op=rng.choice(["test", "bet", "bet", "estim"]))
+        if c is None:
+            continue
+        init = c["init"]
+        if all(F(init[k]).denominator == 1 for k in ("u", "t")) and init.get("u_now") is None:
+            init["int_params"] = True
+            c["stream"] = "intparams:" + c["stream"]
+            return c
+    return None
+
+
+def rescaled(rng, tier, scales=None, op="test"):
     """the same problem in other units: every quantity that carries the unit of the observations (x, u, t, eta, c,
     minsd, f, additive padding g, u_now) multiplied by a power of two s (exact in binary64), bets divided by it.
     Populations counted in millionths or in millions are legitimate inputs; the relative tolerances of the masks
     (`isclose(u, mu_j)`) scale with them, the absolute ones (2*eps) do not matter at these magnitudes."""
     for _ in range(8):
-        c = gen_case(rng, tier, "test")
+        c = gen_case(rng, tier, op) if op == "test" else \
+            gen_case(rng, tier, op, force_test="alpha_mart" if op == "estim" else "betting_mart")
         init = c["init"]
         if c["stream"] == "malformed" or init.get("estim") == "optimal_comparison" or c.get("int_dtype"):
             continue
-        s_ = rng.choice([F(1, 2 ** 20), F(1, 2 ** 20), F(1, 2 ** 24), F(1, 2 ** 30), F(1, 2 ** 10), F(2 ** 10), F(2 ** 20)])
+        s_ = rng.choice(scales or [F(1, 2 ** 20), F(1, 2 ** 20), F(1, 2 ** 24), F(1, 2 ** 30), F(1, 2 ** 10), F(2 ** 10), F(2 ** 20)])
         test = init["test"]
         for k in ("u", "t", "u_now"):
             if init.get(k) is not None:
@@ -1272,6 +1291,8 @@ def gen_extra(rng, tier):
     r = rng.random()
     if r < 0.12:
         return gen_boundary(rng, tier)
+    if r < 0.20:
+        return gen_int_params(rng, tier)
     r = rng.random()
     if r < 0.05:
         return gen_long(rng, tier)
